@@ -24,7 +24,7 @@ func init() {
 			"delivery inside all windows; oracle: accepted and Response/AssertionInfo equal the logical message; distinct = shape hash (layout x signature style x placement x n x encryption x presentation x pre-faults)",
 		Directed:   c08Directed,
 		Run:        c08Run,
-		MustHit:    []string{"place=R", "place=A", "place=RA", "encrypted", "compressed", "layout_comments", "layout_cdata", "layout_charrefs", "n>=2", "inclusive_c14n", "sp_restart", "idp_key_rollover"},
+		MustHit:    []string{"place=R", "place=A", "place=RA", "encrypted", "compressed", "layout_comments", "layout_cdata", "layout_charrefs", "n>=2", "inclusive_c14n", "sp_restart", "idp_key_rollover", "later_assertion_leaner_than_the_first"},
 		RandomRuns: map[string]int{"quick": 6000, "thorough": 80000},
 		Assumptions: []string{
 			"only layouts for which the stub's own goxmldsig self-check passes are sent (canonicalisation the validator supports); a failing self-check on a calibrated layout is a harness error",
@@ -112,6 +112,19 @@ func c08Run(r *core.Run) {
 	noAttrStmt := t.Chance(100, "c08.noattrstmt")
 	if noAttrStmt {
 		m.Assertions[0].HasAttrStmt, m.Assertions[0].Attrs = false, nil
+	}
+	// later assertions may be leaner than the first (an authentication-only or attribute-only assertion):
+	// no AttributeStatement, no Conditions, no AuthnStatement - the summary is taken from the first one
+	if lean := t.Int(6, "c08.lean"); lean >= 1 && lean <= 3 && len(m.Assertions) > 1 {
+		for _, x := range m.Assertions[1:] {
+			if lean&1 != 0 {
+				x.HasAttrStmt, x.Attrs = false, nil
+			}
+			if lean&2 != 0 {
+				x.HasConditions, x.NotBefore, x.NotOnOrAfter, x.AudienceRestrictions, x.OneTimeUse, x.Proxy = false, nil, nil, nil, false, nil
+			}
+		}
+		r.Probe("later_assertion_leaner_than_the_first")
 	}
 	mk := func() *world.SigOpts {
 		o := world.DrawSigOpts(t, signKey, signCert)
